@@ -797,6 +797,17 @@ def r6(repo, chk):
         raise AnalysisError("receive_datagram: _payload_received call not found")
     main = [c for c in recv if any(rd.before(c._parent if False else _stmt_of(c), p) or _if_before(rd, c, p) for p in pr)]
     chk.ob("R6", "receive_datagram logs packet_received before payload processing of every packet", bool(main), "no packet_received record on the path to _payload_received", rd.loc(rd.node))
+    # one packet record per arrival: within one trip round the packet loop no second packet_received / packet_dropped
+    # record can follow a first one
+    recs = recv + _log_calls(rd, "packet_dropped")
+    ploops = [l for l in rd.stmts(lambda s: isinstance(s, ast.While)) if any(inside(c, l) for c in recv)]
+    heads = {rd.cfg.begin[l] for l in ploops}
+    twice = []
+    for a in recs:
+        for b in recs:
+            if a is not b and rd.cfg.reaches(rd.cfg.done_of(a), rd.cfg.node_of(b), avoid=heads):
+                twice.append(f"line {a.lineno} then line {b.lineno}")
+    chk.ob("R6", "receive_datagram writes at most one packet record (received or dropped) per arriving packet", not twice and bool(ploops), f"{twice[:3]}: a packet that is discarded unprocessed (e.g. a duplicate) is also logged as received - the trace no longer has one record per packet", rd.loc(rd.node))
     for c in main:
         holder = _enclosing_if(c)
         ok = holder is not None and norm(holder.test) == "self._quic_logger is not None" and all(rd.before(holder, p) for p in pr)
